@@ -30,7 +30,12 @@ enum Item {
     /// ordinary generated form
     Plain(Sx),
     /// run-time failure: the whole form, and the form that performs only its completed effects
-    Failing { form: Sx, effects_only: Sx, kind: &'static str, depth: usize, in_callcc: bool },
+    /// `form` may end in effects that are never reached (`late`); `ri_form` is the form without them
+    Failing { form: Sx, ri_form: Sx, effects_only: Sx, kind: &'static str, depth: usize, in_callcc: bool, late: &'static str },
+    /// a form the reference interpreter is not asked about (it asks for something a failed
+    /// evaluation never got to define): compared between the real history and the VM that only
+    /// performed the completed effects
+    Probe(Sx),
     /// compile-time failure (no effects)
     BadSyntax(Sx),
     /// read error: raw text
@@ -89,7 +94,18 @@ fn gen_items(bytes: &[u8]) -> (Vec<Item>, Option<usize>) {
                 let mut body = vec![Sx::sym("begin")];
                 body.extend(effects.clone());
                 body.push(fail);
+                let ri_body = body.clone();
+                // effects *after* the failing expression: never reached, so they must leave no trace
+                let late = if in_callcc { *c.pick(&["none", "none", "set!"][..]) } else { *c.pick(&["none", "set!", "define", "define-syntax", "define-procedure"][..]) };
+                match late {
+                    "set!" => body.push(read("(set! c07-a 999)").unwrap()),
+                    "define" => body.push(read("(define c07-late 1)").unwrap()),
+                    "define-procedure" => body.push(read("(define (c07-late-proc) 1)").unwrap()),
+                    "define-syntax" => body.push(read("(define-syntax c07-late-mac (syntax-rules () ((_ x) 'expanded)))").unwrap()),
+                    _ => {}
+                }
                 let mut form = Sx::List(body);
+                let mut ri_form = Sx::List(ri_body);
                 let mut eff_only = {
                     let mut b = vec![Sx::sym("begin")];
                     b.extend(effects);
@@ -98,9 +114,10 @@ fn gen_items(bytes: &[u8]) -> (Vec<Item>, Option<usize>) {
                 };
                 if in_callcc {
                     form = Sx::call("call/cc", vec![Sx::List(vec![Sx::sym("lambda"), Sx::List(vec![Sx::sym("k")]), form])]);
+                    ri_form = Sx::call("call/cc", vec![Sx::List(vec![Sx::sym("lambda"), Sx::List(vec![Sx::sym("k")]), ri_form])]);
                     eff_only = Sx::call("call/cc", vec![Sx::List(vec![Sx::sym("lambda"), Sx::List(vec![Sx::sym("k")]), eff_only])]);
                 }
-                fails.push(Item::Failing { form, effects_only: eff_only, kind, depth, in_callcc });
+                fails.push(Item::Failing { form, ri_form, effects_only: eff_only, kind, depth, in_callcc, late });
             }
             1 => fails.push(Item::BadSyntax(read(BAD_SYNTAX[c.below(BAD_SYNTAX.len())]).unwrap_or(Sx::List(vec![])))),
             _ => fails.push(Item::BadText(BAD_TEXT[c.below(BAD_TEXT.len())].to_string())),
@@ -127,6 +144,7 @@ fn gen_items(bytes: &[u8]) -> (Vec<Item>, Option<usize>) {
                     items.push(fails[fi].clone());
                 }
                 items.push(Item::Plain(probe.clone()));
+                items.extend(late_probes(&fails[fi]));
                 if deep_k.is_some() {
                     items.push(Item::Plain(reenter.clone()));
                 }
@@ -137,6 +155,7 @@ fn gen_items(bytes: &[u8]) -> (Vec<Item>, Option<usize>) {
     for (fi, p) in positions.iter().enumerate() {
         if p % (n + 1) == n {
             items.push(fails[fi].clone());
+            items.extend(late_probes(&fails[fi]));
         }
     }
     items.push(Item::Plain(probe));
@@ -144,6 +163,17 @@ fn gen_items(bytes: &[u8]) -> (Vec<Item>, Option<usize>) {
         items.push(Item::Plain(reenter));
     }
     (items, slice)
+}
+
+/// what to ask after a failing form whose unreached tail would have defined something
+fn late_probes(it: &Item) -> Vec<Item> {
+    let texts: &[&str] = match it {
+        Item::Failing { late: "define", .. } => &["c07-late"],
+        Item::Failing { late: "define-procedure", .. } => &["(c07-late-proc)"],
+        Item::Failing { late: "define-syntax", .. } => &["(c07-late-mac 1)", "(begin (define (c07-late-mac y) (list 'called y)) (c07-late-mac 2))"],
+        _ => &[],
+    };
+    texts.iter().map(|t| Item::Probe(read(t).unwrap())).collect()
 }
 
 fn render(items: &[Item]) -> Value {
@@ -154,6 +184,7 @@ fn render(items: &[Item]) -> Value {
             Item::Failing { form, .. } => format!("{}   ; fails", form),
             Item::BadSyntax(f) => format!("{}   ; bad syntax", f),
             Item::BadText(t) => format!("{}   ; read error", t),
+            Item::Probe(f) => format!("{}   ; compared with the VM that only performed the completed effects", f),
         })
         .collect::<Vec<_>>())
 }
@@ -171,7 +202,7 @@ fn trace_of(s: &SutSession) -> Option<Trace> {
 
 fn eval_item(s: &mut SutSession, it: &Item) -> FormResult {
     match it {
-        Item::Plain(f) | Item::BadSyntax(f) | Item::Failing { form: f, .. } => s.eval_form(f).0,
+        Item::Plain(f) | Item::BadSyntax(f) | Item::Probe(f) | Item::Failing { form: f, .. } => s.eval_form(f).0,
         Item::BadText(t) => {
             let vm = &mut s.vm;
             match guard(|| vm.eval_text(t).map(|_| ()).map_err(|e| e.to_string())) {
@@ -193,7 +224,7 @@ fn check(ctx: &Ctx, items: &[Item], slice: Option<usize>) -> Outcome {
         .iter()
         .filter_map(|it| match it {
             Item::Plain(f) => Some(f.clone()),
-            Item::Failing { form, .. } => Some(form.clone()),
+            Item::Failing { ri_form, .. } => Some(ri_form.clone()),
             _ => None,
         })
         .collect();
@@ -209,6 +240,8 @@ fn check(ctx: &Ctx, items: &[Item], slice: Option<usize>) -> Outcome {
     let mut failures_seen = 0u32;
     let mut later_success_after_failure = false;
     let mut traces: Vec<(usize, Option<Trace>)> = vec![];
+    let mut processed = 0usize;
+    let mut probe_results: Vec<(usize, FormResult)> = vec![];
     for (i, it) in items.iter().enumerate() {
         let judged = matches!(it, Item::Plain(_) | Item::Failing { .. });
         if judged && ri_idx >= ri.comparable {
@@ -219,9 +252,10 @@ fn check(ctx: &Ctx, items: &[Item], slice: Option<usize>) -> Outcome {
         let what = match it {
             Item::Plain(f) => f.to_string(),
             Item::Failing { form, .. } => form.to_string(),
-            Item::BadSyntax(f) => f.to_string(),
+            Item::BadSyntax(f) | Item::Probe(f) => f.to_string(),
             Item::BadText(t) => t.clone(),
         };
+        processed = i + 1;
         if let FormResult::Panic(p) = &r {
             return Outcome::fail("C07|panic", format!("item #{} `{}` panicked: {}", i, what, p), rendered);
         }
@@ -230,6 +264,7 @@ fn check(ctx: &Ctx, items: &[Item], slice: Option<usize>) -> Outcome {
             return Outcome::Discard;
         }
         match it {
+            Item::Probe(_) => probe_results.push((i, r.clone())),
             Item::BadSyntax(_) | Item::BadText(_) => {
                 if !matches!(r, FormResult::Failed(_)) {
                     // whether these are errors is not this property's business
@@ -334,7 +369,54 @@ fn check(ctx: &Ctx, items: &[Item], slice: Option<usize>) -> Outcome {
             );
         }
     }
+    // probes: the same history in a VM in which every injected failing form is replaced by its
+    // completed effects (and the read/compile failures are left out) must answer them alike
+    if !probe_results.is_empty() {
+        let mut g = SutSession::new(RunOpts::default());
+        let mut answers: Vec<(usize, FormResult)> = vec![];
+        for (i, it) in items[..processed].iter().enumerate() {
+            let r = match it {
+                Item::Plain(x) => g.eval_form(x).0,
+                Item::Failing { effects_only, .. } => g.eval_form(effects_only).0,
+                Item::Probe(x) => {
+                    let r = g.eval_form(x).0;
+                    answers.push((i, r.clone()));
+                    r
+                }
+                _ => continue,
+            };
+            g.cap.take();
+            if matches!(r, FormResult::Panic(_) | FormResult::OverBudget) {
+                break;
+            }
+        }
+        for ((i, real), (j, clean)) in probe_results.iter().zip(answers.iter()) {
+            let same = match (real, clean) {
+                (FormResult::Value(a), FormResult::Value(b)) => a.to_string() == b.to_string(),
+                (FormResult::Failed(_), FormResult::Failed(_)) => true,
+                _ => false,
+            };
+            if i == j && !same {
+                let what = match &items[*i] {
+                    Item::Probe(f) => f.to_string(),
+                    _ => String::new(),
+                };
+                return Outcome::fail(
+                    "C07|uncompleted-effect-visible",
+                    format!("item #{} `{}`: {} after the real history but {} in a VM that only performed the completed effects", i, what, real.short(), clean.short()),
+                    rendered,
+                );
+            }
+        }
+    }
     if ctx.counting() {
+        for it in items[..processed].iter() {
+            if let Item::Failing { late, .. } = it {
+                if *late != "none" {
+                    ctx.class(&format!("unreached-effect-after-the-failure:{}", late));
+                }
+            }
+        }
         if slice.is_some() {
             ctx.class("session-driven-in-slices");
         }
@@ -433,7 +515,7 @@ impl Prop for C07 {
         "C07"
     }
     fn rule(&self) -> &'static str {
-        "generated sessions (C01/C05 generator) with 1-4 injected failing forms (7 run-time error kinds at call depth 0/1/3/20/100/200, inside or outside a call/cc receiver, after 0-2 completed effects; bad-syntax forms; unbalanced texts; one of them repeated up to 12 times) and witness probes after each; in half of the sessions a continuation captured under 10/60/100/300 pending calls before the failures is re-entered after each of them; plus a ladder of k consecutive failures, k in {1,2,10,100,1000} x depth x kind (7 run-time kinds, and 3 compile-time failures whose abandoned compilation has already allocated literals or nested lambdas). Non-trivial: a failing form is followed by a succeeding form that is compared with the reference, or by another failing form; distinct by session text."
+        "generated sessions (C01/C05 generator) with 1-4 injected failing forms (7 run-time error kinds at call depth 0/1/3/20/100/200, inside or outside a call/cc receiver, after 0-2 completed effects and optionally followed by an effect that is never reached - set!, define, define of a procedure, define-syntax - whose absence is probed afterwards against a VM that only performed the completed effects; bad-syntax forms; unbalanced texts; one of them repeated up to 12 times) and witness probes after each; in half of the sessions a continuation captured under 10/60/100/300 pending calls before the failures is re-entered after each of them; plus a ladder of k consecutive failures, k in {1,2,10,100,1000} x depth x kind (7 run-time kinds, and 3 compile-time failures whose abandoned compilation has already allocated literals or nested lambdas). Non-trivial: a failing form is followed by a succeeding form that is compared with the reference, or by another failing form; distinct by session text."
     }
     fn assumptions(&self) -> Vec<&'static str> {
         vec![
@@ -484,7 +566,7 @@ impl Prop for C07 {
                     None => Outcome::Pass,
                 }
             }
-            // a hand-written session: [{"plain"|"bad-syntax"|"bad-text": text} | {"failing": text, "effects_only": text}]
+            // a hand-written session: [{"plain"|"bad-syntax"|"bad-text"|"probe": text} | {"failing": text, "effects_only": text, "ri_form"?: text}]
             "items" => {
                 let mut items: Vec<Item> = read_all(SETUP).unwrap().into_iter().map(Item::Plain).collect();
                 for it in payload["items"].as_array().cloned().unwrap_or_default() {
@@ -495,8 +577,11 @@ impl Prop for C07 {
                         items.push(Item::BadSyntax(f));
                     } else if let Some(t) = it["bad-text"].as_str() {
                         items.push(Item::BadText(t.to_string()));
+                    } else if let Some(f) = get("probe") {
+                        items.push(Item::Probe(f));
                     } else if let (Some(form), Some(effects_only)) = (get("failing"), get("effects_only")) {
-                        items.push(Item::Failing { form, effects_only, kind: "replayed", depth: 0, in_callcc: false });
+                        let ri_form = get("ri_form").unwrap_or_else(|| form.clone());
+                        items.push(Item::Failing { form, ri_form, effects_only, kind: "replayed", depth: 0, in_callcc: false, late: "none" });
                     }
                 }
                 check(ctx, &items, payload["slice"].as_u64().map(|b| b as usize))
